@@ -28,6 +28,9 @@ type freshReq struct {
 	// Fingerprint: also report a fingerprint of everything a later program can reach from the
 	// global scope (every global name; for objects their own property names, values and prototype)
 	Fingerprint bool `json:"fingerprint"`
+	// standard input of each earlier program and of prog (the playground injects a new reader per execution)
+	Stdins []string `json:"stdins"`
+	Stdin  string   `json:"stdin"`
 }
 
 type freshReply struct {
@@ -99,13 +102,18 @@ func cmdFresh() {
 		if err := json.Unmarshal(line, &q); err != nil {
 			panic(err)
 		}
-		for _, h := range q.History {
+		// as web/wasm/executor.go: IO is injected into the constant scope before every execution
+		for i, h := range q.History {
 			out.Reset()
-			in.r = strings.NewReader("")
+			sin := ""
+			if i < len(q.Stdins) {
+				sin = q.Stdins[i]
+			}
+			global.InjectIO(strings.NewReader(sin), &out)
 			evalIn(h, object.NewEnclosedEnv(global), &out)
 		}
 		out.Reset()
-		in.r = strings.NewReader("")
+		global.InjectIO(strings.NewReader(q.Stdin), &out)
 		r := evalIn(q.Prog, object.NewEnclosedEnv(global), &out)
 		rep := freshReply{evalResult: r}
 		if q.Fingerprint {
@@ -134,6 +142,7 @@ func cmdRuntest() {
 		os.RemoveAll(q.Dir)
 		os.MkdirAll(q.Dir, 0o755)
 		for _, f := range q.Files {
+			os.MkdirAll(filepath.Dir(filepath.Join(q.Dir, f[0])), 0o755)
 			os.WriteFile(filepath.Join(q.Dir, f[0]), []byte(f[1]), 0o644)
 		}
 		var out bytes.Buffer
